@@ -1,5 +1,5 @@
 """C01 — write → read returns the same pose, or the write fails loudly."""
-import io, struct
+import io, json, struct
 import numpy as np
 from .. import posecase as pc
 
@@ -170,7 +170,51 @@ def run(ctx):
             ctx.count("multibyte-name")
         if i in (0, 2) or (tag == "generated" and len(ctx.samples) < 4):
             ctx.sample(case if pc.case_size(case) < 400 else {"tag": tag, "size": pc.case_size(case)})
+    rewrite_after_edit(ctx, [c for c, t in cases if t == "generated" and pc.representable(c) and c["header"]["components"]][:ctx.pick(40, 400)])
     extras(ctx)
+
+
+def rewrite_after_edit(ctx, cases):
+    """write a pose, edit its header in place (names, a limb, a colour, the dimensions), write it again: the second file decodes to the pose as it is NOW
+    (a writer may not remember what it emitted for the same objects before)"""
+    from pose_format import Pose
+    from pose_format.pose_header import PoseHeaderCache
+    import copy as _copy
+    for case in cases:
+        try:
+            pose = pc.build_pose(case)
+            pose.write(io.BytesIO())
+        except Exception:
+            continue
+        edited = _copy.deepcopy(case)
+        eh = edited["header"]
+        eh["width"] = (eh["width"] + 3) % 65536
+        pose.header.dimensions.width = eh["width"]
+        for comp, ec in zip(pose.header.components, eh["components"]):
+            nm = pc.unhx(ec["name"])
+            if len(nm.encode()) < 65000:
+                ec["name"] = pc.hx(nm + "′"); comp.name = nm + "′"
+            if ec["points"] and len(pc.unhx(ec["points"][-1]).encode()) < 65000:
+                q = pc.unhx(ec["points"][-1]) + "₂"; ec["points"][-1] = pc.hx(q); comp.points[-1] = q
+            if ec["limbs"]:
+                ec["limbs"][0] = [ec["limbs"][0][1], ec["limbs"][0][0]]; comp.limbs[0] = (ec["limbs"][0][0], ec["limbs"][0][1])
+            if ec["colors"]:
+                ec["colors"][0] = [(ec["colors"][0][0] + 1) % 65536, ec["colors"][0][1], ec["colors"][0][2]]; comp.colors[0] = tuple(ec["colors"][0])
+        ctx.evaluated(("rewrite", json.dumps(edited["header"]))); ctx.count("write → edit in place → write again")
+        if not pc.representable(edited):
+            continue
+        buf = io.BytesIO()
+        try:
+            pose.write(buf)
+            PoseHeaderCache.clear_cache()
+            back = pc.canon_pose(Pose.read(buf.getvalue()))
+        except Exception as e:
+            ctx.violation("written bytes cannot be decoded", edited if pc.case_size(edited) < 3000 else {"note": "large case"}, {"after": "an in-place edit of a pose that had been written before", "error": type(e).__name__}, True, size=pc.case_size(edited))
+            continue
+        d = pc.diff(pc.expected_readback(edited), back)
+        if d:
+            ctx.violation("written bytes decode to a different pose", edited if pc.case_size(edited) < 3000 else {"note": "large case"},
+                          {"first_difference": d, "after": "an in-place edit of a pose that had been written before (the second file describes the pose as first written)"}, True, size=pc.case_size(edited))
 
 
 def extras(ctx):
@@ -220,7 +264,11 @@ def extras(ctx):
             ctx.violation("representable pose refused", {"extra": "float64", "fps": repr(fps)}, {}, False)
             continue
         PoseHeaderCache.clear_cache()
-        back = Pose.read(raw)
+        try:
+            back = Pose.read(raw)
+        except Exception as e:
+            ctx.violation("written bytes cannot be decoded", {"extra": "float64", "data": d64.tolist(), "conf": c64.tolist(), "fps": repr(fps)}, {"read_error": type(e).__name__ + ": " + str(e)[:100]}, True)
+            continue
         with np.errstate(all="ignore"):
             want_d, want_c = d64.astype(np.float32), c64.astype(np.float32)
         ok = (np.asarray(back.body.data.data).view(np.uint32) == want_d.view(np.uint32)).all() and \
